@@ -715,6 +715,27 @@ fn main() {
                 .with(if c.kind.is_padding_boundary(c.len) { "padding-boundary" } else if c.len >= 2 * c.kind.block() { ">=2-blocks" } else { "other-len" }))
         });
         }
+        if on("bytehash.sweep") {
+            // one chip each: SHA-256, SHA-512, BLAKE2b, Keccak-f
+            let mut rng = SplitMix(vpcore::derive_seed(&["C07", "sweep"], seed));
+            let items: Vec<MsgCase> = [HashKind::Sha256, HashKind::Sha512, HashKind::Blake2b512, HashKind::Keccak256, HashKind::Sha3_256, HashKind::Blake2b256]
+                .iter()
+                .take(p.tier.pick(4, 6))
+                .map(|k| MsgCase { kind: *k, len: k.block() - 1, class: 3, seed: rng.next_u64() })
+                .collect();
+            p.enumerate(
+                "bytehash.sweep",
+                "class-representative fault sweep: the assignments of one honest run are grouped by (region shape, column, offset in the region); one occurrence per class is changed by +1 (many classes per synthesis, far apart) and must be detected by a gate / lookup within 12 rows or a copy failure at the cell; undetected ones are confirmed singly with full verification and must not expose a wrong digest; non-trivial = at least one fault detected",
+                items,
+                6,
+                false,
+                |c| {
+                    let x = c.x();
+                    let (st, v) = vp_circ::e2::check_class_sweep(&ByteHash { kind: c.kind, len: c.len }, &x, c.seed, if quick { 600 } else { 100_000 }, 24)?;
+                    Ok(v.with(format!("{}: classes={} swept={} runs={} local={} confirmed={} (rejected {}, harmless {})", c.kind.name(), st.classes, st.swept, st.runs, st.detected_locally, st.confirmed, st.confirmed_rejected, st.confirmed_harmless)))
+                },
+            );
+        }
         let items: Vec<MsgCase> = kinds.iter().flat_map(|k| s2_msg_cases(*k, quick, seed)).collect();
         if on("bytehash.s2") {
         p.enumerate("bytehash.s2", "a fault was rejected or accepted with correct public values", items, 16, false, |c| {
